@@ -12,10 +12,22 @@ DecOk == LET s == DecodeStr(e.a[1], Drop(e.a, 2))
 EncOk == LET g == Drop(e.a, 2)
              en == Encode(g)
          IN e.o = <<Len(en), LengthOf(g)>> \o en \o <<-7>> \o en
+(* calls recorded from the repository's own test programs (harness/suite/wrap.c), one decoder / encoder / length query at a time:
+     sdecb ty n o1..on | rc consumed g..      senc ty g.. | rc (used - offset) e..      slen ty g.. | length *)
+SDecAlts(s) == CASE s.st = "done" -> IF Overflows(s.ty, s.acc) THEN {<<s.n, s.n>> \o Trunc(s.ty, s.acc), <<-1, 0>>, <<EILSEQ, 0>>}
+                                     ELSE {<<s.n, s.n>> \o Trunc(s.ty, s.acc)}
+                 [] s.st = "illegal" -> {<<EILSEQ, 0>>}
+                 [] OTHER -> {<<-1, 0>>}
+SDecOk == e.o \in SDecAlts(DecodeStr(e.a[1], Drop(e.a, 2)))
+SEncOk == LET en == Encode(Drop(e.a, 1)) IN e.o = <<Len(en), Len(en)>> \o en
+SLenOk == e.o = <<LengthOf(Drop(e.a, 1))>>
 TNext == /\ l <= Len(TraceLog) /\ l' = l + 1
          /\ CASE e.op = "@" -> TRUE
               [] e.op = "dec" -> DecOk /\ e.asan = 0
               [] e.op = "enc" -> EncOk /\ e.asan = 0
+              [] e.op = "sdecb" -> SDecOk
+              [] e.op = "senc" -> SEncOk
+              [] e.op = "slen" -> SLenOk
               [] e.op \in {"sweep32", "rnd64"} -> e.o[1] = 0 /\ e.asan = 0
               [] OTHER -> FALSE
          /\ UNCHANGED <<vars, ev>>
